@@ -1141,3 +1141,37 @@ Proof.
 Qed.
 
 End Normalize.
+
+(* ------------------------------------------------------------------------------------------ *)
+(* 7. the end anchor of RE_VALID_FIELD_NAME ($ or \Z) does not matter for text without a line feed *)
+
+Lemma word_not_lf : forall ch, is_word ch = true -> ch <> LF.
+Proof. intros ch H E. subst ch. discriminate. Qed.
+
+Lemma valid_body_no_lf : forall s, valid_body s = true -> ~ In LF s.
+Proof.
+  intros [|ch s] H; [discriminate|]. simpl in H. apply andb_prop in H. destruct H as [Ha Hs].
+  intros [E | Hin].
+  - subst ch. discriminate.
+  - rewrite forallb_forall in Hs. apply (word_not_lf LF (Hs LF Hin)). reflexivity.
+Qed.
+
+Theorem valid_field_name_no_lf : forall s, valid_field_name s = true -> ~ In LF s.
+Proof.
+  intros [|ch s] H; [discriminate|]. unfold valid_field_name in H.
+  destruct (ch =? 95) eqn:E.
+  - apply N.eqb_eq in E. subst ch. intros [E2 | Hin]; [discriminate|]. apply (valid_body_no_lf s H Hin).
+  - apply (valid_body_no_lf (ch :: s) H).
+Qed.
+
+Theorem valid_field_name_dollar_same : forall s, ~ In LF s -> valid_field_name_dollar s = valid_field_name s.
+Proof.
+  intros s H. unfold valid_field_name_dollar.
+  destruct (rev s) as [|x r] eqn:Er; [rewrite orb_false_r; reflexivity|].
+  destruct (N.eq_dec x 10) as [->|Hne].
+  - exfalso. apply H. apply in_rev. rewrite Er. left. reflexivity.
+  - destruct x as [|p]; [rewrite orb_false_r; reflexivity|].
+    assert (Hm : match N.pos p with 10 => valid_field_name (rev r) | _ => false end = false).
+    { repeat (destruct p as [p|p|]; try reflexivity). exfalso. apply Hne. reflexivity. }
+    rewrite Hm, orb_false_r. reflexivity.
+Qed.
